@@ -535,6 +535,23 @@ def checkpoint_case(ctx, case):
                 if not torch.allclose(ra, rb, rtol=1e-5, atol=1e-6):
                     ctx.violation(dict(sig, q="baseline_policy"), "the restored rollout-baseline policy gives other greedy rewards than the saved one", dict(saved=ra.tolist(), restored=rb.tolist()))
                     return
+            if hasattr(inner_a, "policy") and isinstance(getattr(inner_a, "policy", None), torch.nn.Module):
+                # the baseline object on its own through pickle / deepcopy (documented: the evaluation dataset is dropped and rebuilt
+                # in setup; policy, stored rollout values and their mean must survive)
+                for how, clone in (("pickle", lambda o: pickle.loads(pickle.dumps(o))), ("deepcopy", copy.deepcopy)):
+                    try:
+                        bc = clone(ba)
+                    except Exception as e:
+                        ctx.violation(dict(sig, q="baseline_copy_raises", how=how, exc=type(e).__name__), f"{how} of the trained baseline raised {type(e).__name__}: {str(e)[:160]}", None)
+                        return
+                    ic = getattr(bc, "baseline", bc)
+                    ctx.count("c19_baseline_copies")
+                    with torch.inference_mode():
+                        rc = ic.policy(env.reset(td_in.clone()), env, decode_type="greedy")["reward"]
+                    same_vals = (getattr(ic, "bl_vals", None) is None and getattr(inner_a, "bl_vals", None) is None) or (getattr(ic, "bl_vals", None) is not None and getattr(inner_a, "bl_vals", None) is not None and bool((torch.as_tensor(ic.bl_vals) == torch.as_tensor(inner_a.bl_vals)).all()))
+                    if not torch.allclose(ra, rc, rtol=1e-5, atol=1e-6) or not same_vals or getattr(bc, "alpha", None) != getattr(ba, "alpha", None):
+                        ctx.violation(dict(sig, q="baseline_copy", how=how), f"{how} of the trained baseline does not behave like the original (greedy rewards / stored rollout values / warm-up weight)", None)
+                        return
             if hasattr(inner_a, "critic") and inner_a.critic is not None:
                 ca, cb = inner_a.critic.state_dict(), inner_b.critic.state_dict()
                 if set(ca) != set(cb) or any(not torch.equal(ca[k], cb[k]) for k in ca):
